@@ -18,7 +18,7 @@ THRESHOLDS = {
 }
 MIN_NONTRIVIAL = {"quick": 60, "thorough": 400}
 RULE = ("case = random smoothing-level grid (ntheta in 4N, >=2 circles with both parities via explicit split, >=3 radial nodes, "
-        "automatic split in 30%), geometry/profile, DirBC, give cache combination + take, threads in {1,2,4,7}, start iterate "
+        "automatic split in 30%; 4% levels of 81-97 x 128-160 nodes with 2-32 threads), geometry (15% mirrored, det DF < 0)/profile, DirBC, give cache combination + take, threads in {1,2,4,7}, start iterate "
         "(random, exact+noise, exact, zeros), scratch vector filled with garbage; signature = (circle parity, ntheta mod 8, "
         "DirBC, cache combo, geometry, threads, start kind); non-trivial = >=4 circles and >=8 radial lines (>=2 lines of each colour)")
 ASSUMPTIONS = ["exact discrete solution obtained from the library direct solver (C04) plus one step of iterative refinement with the reference residual",
